@@ -62,7 +62,19 @@ class Check:
     def prepare(self, tier: str) -> None:
         M.warm()
 
+    def corpus_list(self) -> T.List[str]:
+        p = os.path.join(E.VERIF_DIR, 'checks', 'c05_corpus_ok.txt')
+        if not os.path.exists(p):
+            return []
+        with open(p) as f:
+            return [l.strip() for l in f if l.strip() and not l.startswith('#')]
+
     def generate(self, rng: random.Random, tier: str, index: int) -> T.Dict[str, T.Any]:
+        corpus = self.corpus_list() if tier != 'quick' else []
+        if corpus and rng.random() < 0.25:
+            name = corpus[rng.randrange(len(corpus))]
+            policies = ['reverse', 'consumers-first', 'generators-last', f'random:{rng.randrange(1 << 30)}']
+            return {'kind': 'c05', 'corpus': name, 'policies': policies, 'hermetic': True}
         spec = G.gen_project(rng, 'small' if tier == 'quick' else rng.choice(['small', 'big']))
         policies = ['reverse', 'consumers-first', 'generators-last'] + [f'random:{rng.randrange(1 << 30)}' for _ in range(1 if tier == 'quick' else 3)]
         return {'kind': 'c05', 'spec': spec, 'policies': policies, 'hermetic': True}
@@ -81,7 +93,11 @@ class Check:
     def configure(self, root: str, sc: T.Dict[str, T.Any]) -> T.Tuple[T.Optional[str], str]:
         sd = os.path.join(root, 'src')
         bd = os.path.join(root, 'bd')
-        G.render(sc['spec'], sd)
+        if sc.get('corpus'):
+            # a project of the repository's own corpus, copied so that nothing is written into the repository
+            shutil.copytree(os.path.join(E.repo_dir(), 'test cases', 'common', sc['corpus']), sd, symlinks=True)
+        else:
+            G.render(sc['spec'], sd)
         r = M.meson(['setup', bd, sd], capture=os.path.join(root, 'setup.log'), env=build_env(), timeout=300)
         if not r['ok'] or r['value'] != 0:
             return None, (r.get('exc') or r['out'])[-3000:]
@@ -107,7 +123,7 @@ class Check:
                 add(probes, 'unsupported-manifest-feature')
                 return R.ok(nontrivial=False, probes=probes, summary={'skipped': str(e)})
             return R.violation('unexecutable-graph', f'build.ninja cannot be loaded: {e}', 'unexecutable-graph:parse')
-        problems = m.sanity(lambda p: os.path.exists(os.path.join(bd, p)))
+        problems = m.sanity(lambda p: os.path.lexists(os.path.join(bd, p)))   # lexists: library aliases are symlinks created at configure time
         if problems:
             return R.violation('unexecutable-graph', '; '.join(problems[:4]), 'unexecutable-graph:' + problems[0].split(':')[-1].strip().split(' ')[0])
         edges = m.wanted_edges()
@@ -148,7 +164,7 @@ class Check:
                 return R.violation('schedule-fails', f'schedule `{pol}` (order of edge lines {[next(e.line for e in edges if e.idx == i) for i in res.order][:40]}) fails although '
                                    f'declaration order builds: {res.detail[-1200:]}', f'schedule-fails:{fe.rule if fe else "?"}:{self.out_kind(fe)}', trace=trace,
                                    faults=faults, probes=probes, steps=sim_steps)
-            diff = [o for o in base.digests if base.digests[o] != res.digests.get(o)]
+            diff = [o for o in base.digests if base.digests[o] != res.digests.get(o) and not o.endswith(('.gch', '.pch'))]   # gcc PCH files are not reproducible run to run
             if diff:
                 return R.violation('schedule-changes-output', f'schedule `{pol}` yields different artifacts than declaration order: {diff[:6]}',
                                    'schedule-changes-output', trace=trace, faults=faults, probes=probes, steps=sim_steps)
@@ -181,7 +197,7 @@ class Check:
                                        f'missing-dependency:{e.rule}:{self.out_kind(e)}', trace=dict(trace, failing=e.line), faults=faults, probes=probes, steps=sim_steps)
                 for o in e.all_outs:
                     d = X.file_digest(os.path.join(bd, o))
-                    if d != base.digests.get(o):
+                    if d != base.digests.get(o) and not o.endswith(('.gch', '.pch')):
                         return R.violation('hermetic-output-differs', f'edge producing {o} (line {e.line}) yields a different artifact when only its declared ancestors are present',
                                            f'hermetic-output-differs:{e.rule}', trace=trace, faults=faults, probes=probes, steps=sim_steps)
         nontrivial = gen_consumed >= 1 and bool(keys)
@@ -215,6 +231,8 @@ class Check:
                 c = copy.deepcopy(sc)
                 c['policies'] = [p]
                 yield c
+        if sc.get('corpus'):
+            return
         ents = sc['spec']['ents']
         # drop leaf entities (nothing refers to them)
         import json
